@@ -55,6 +55,7 @@ def make_spec(st, idx, tier):
                 n += 1
         spec["feed_stats"]["partial_rows"] = n
     C.add_unrequested_gaps(st, spec)
+    C.feed_as_lists_polls(st, spec)
     return spec
 
 
